@@ -276,7 +276,7 @@ fn builtin_letters_reused(spec: &OptSpec, flags_too: bool) -> Vec<char> {
 }
 
 /// short letters declared as a flag at one place and as an argument at another
-fn ambiguous_letters(spec: &OptSpec) -> Vec<char> {
+pub fn ambiguous_letters(spec: &OptSpec) -> Vec<char> {
     let mut items = Vec::new();
     spec.root.all_items(&mut items);
     let flags: Vec<char> = items
@@ -349,9 +349,78 @@ fn word_inside_repeated_group(case: &mut Case) {
     }
 }
 
+/// `--color` / `--color=WHEN`: a switch and an `adjacent` argument that share their names (the
+/// optional-value idiom). The argument accepts every spelling with name and value in one item,
+/// wherever the bare switch stands.
+fn switch_and_adjacent_argument_share_names(case: &mut Case) {
+    let mut rng = case.rng(8);
+    let names = Names {
+        shorts: vec!['c'],
+        longs: vec!["color".to_string()],
+        envs: vec![],
+    };
+    let sw = Spec::Item(Item {
+        id: 1,
+        names: names.clone(),
+        help: None,
+        leaf: Leaf::Switch,
+    });
+    let arg = Spec::wrap(
+        W::Optional { catch: false },
+        3,
+        Spec::Item(Item {
+            id: 2,
+            names,
+            help: None,
+            leaf: Leaf::Arg {
+                ty: Ty::Str,
+                metavar: "WHEN".into(),
+                adjacent: true,
+            },
+        }),
+    );
+    // the argument is asked first, as the documentation of `adjacent` shows it
+    let b = Bench::new(case, OptSpec::plain(Spec::Seq(vec![arg, sw])));
+    let bare = *rng.pick(&["-c", "--color"]);
+    // (`-calways` is refused as ambiguous by design: the letter is a flag and an argument)
+    let attached = *rng.pick(&["-c=always", "--color=always"]);
+    let lines: Vec<Vec<Vec<u8>>> = vec![
+        vec![attached.as_bytes().to_vec()],
+        vec![attached.as_bytes().to_vec(), bare.as_bytes().to_vec()],
+        vec![bare.as_bytes().to_vec(), attached.as_bytes().to_vec()],
+    ];
+    let mut first: Option<Outcome> = None;
+    for (k, argv) in lines.iter().enumerate() {
+        let (o, _) = b.run(case, argv, "twin-switch-and-adjacent-argument");
+        case.rep.count("pairs");
+        let takes_value = matches!(&o, Outcome::Value(v) if v.show().contains("always"));
+        if !takes_value && !matches!(o, Outcome::Panic(_) | Outcome::FuelExhausted) {
+            case.rep.violation(
+                "adjacent-argument-refuses-attached-value",
+                "respelling",
+                case.index,
+                b.detail(
+                    argv,
+                    "twin-switch-and-adjacent-argument",
+                    "a value in which the argument is `always`",
+                    &o,
+                ),
+            );
+        }
+        if k == 0 {
+            first = Some(o);
+        }
+    }
+    let _ = first;
+}
+
 pub fn run_case(case: &mut Case) {
     if case.index % 64 == 33 {
         word_inside_repeated_group(case);
+        return;
+    }
+    if case.index % 64 == 17 {
+        switch_and_adjacent_argument_share_names(case);
         return;
     }
     let mut rng = case.rng(0);
